@@ -79,6 +79,7 @@ class Sym:
         self.calls = calls or {}            # public functions with a symbolic meaning: name -> fn(sym, args, kwargs)
         self.guards = []
         self.depth = 0
+        self.borrowed = []                  # ids of the values a helper received from its caller (per frame)
 
     # ------------------------------------------------------------ numbers
     def as_real(self, v):
@@ -354,10 +355,14 @@ class Sym:
             raise TranslateError('helper nesting too deep / recursive: ' + fn.name)
         params = norm.helper_params(fn, call)
         inner = {p_: self.ev(a, env) for p_, a in params.items()}
+        if any(v.kind == 'arrlist' for v in inner.values()):
+            raise TranslateError('a Python list is passed to a helper (it could be mutated there)')
         self.depth += 1
+        self.borrowed.append([id(v) for v in inner.values()])
         try:
             return self.run_fn(fn, inner)
         finally:
+            self.borrowed.pop()
             self.depth -= 1
 
     def run_fn(self, fn, env):
@@ -407,6 +412,9 @@ class Sym:
         return t
 
     def assign(self, env, target, v):
+        if v.kind == 'arrlist' and any(o is v for o in env.values()):
+            # `b = a; b.append(x)` would change `a` too: values are immutable here, so an alias is refused
+            raise TranslateError('a second name for the same Python list (aliasing is outside the fragment)')
         env = dict(env)
         if isinstance(target, ast.Name):
             env[target.id] = v
@@ -458,7 +466,14 @@ class Sym:
             v = self.ev(s.value, env)
             return self.guarded(k, lambda: self.run(rest, self.assign(env, s.target, v)))
         if isinstance(s, ast.AugAssign) and isinstance(s.target, ast.Name):
-            v = self.binop(s.op, self.ev(s.target, env), self.ev(s.value, env))
+            cur = self.ev(s.target, env)
+            if cur.kind in ('term', 'arr', 'root', 'expi', 'shifted') or (cur.kind == 'real' and cur.len is not None):
+                # numpy updates the array IN PLACE: every other name of it (and the caller's argument) changes too
+                if sum(1 for o in env.values() if o is cur) != 1 or cur.kind in ('arr', 'root') \
+                        or (cur.kind == 'term' and cur.t in ('r', 'Y')) \
+                        or any(id(cur) in fr for fr in self.borrowed):
+                    raise TranslateError('in-place update of an array that has another name / is an argument')
+            v = self.binop(s.op, cur, self.ev(s.value, env))
             return self.guarded(k, lambda: self.run(rest, self.assign(env, s.target, v)))
         if isinstance(s, ast.Expr) and isinstance(s.value, ast.Call) and isinstance(s.value.func, ast.Attribute) \
                 and s.value.func.attr == 'append' and isinstance(s.value.func.value, ast.Name) \
